@@ -162,6 +162,8 @@ struct Rules {
     panic: Vec<(String, String)>,
     /// macro name -> replacement function name (first argument kept)
     mac1: BTreeMap<String, String>,
+    /// callee path (as written) -> replacement path
+    path: BTreeMap<String, String>,
 }
 
 #[derive(Default)]
@@ -472,6 +474,10 @@ impl<'a, 'ast> Visit<'ast> for Rewriter<'a> {
                 if let Expr::Path(p) = &*c.func {
                     let full = p.path.segments.iter().map(|s| s.ident.to_string()).collect::<Vec<_>>().join("::");
                     let last = p.path.segments.last().map(|s| s.ident.to_string()).unwrap_or_default();
+                    if let Some(np) = self.spec.rules.path.get(&full) {
+                        let (fs, fe) = self.src.range(p.path.span());
+                        self.edit(fs, fe, np.clone(), 0);
+                    }
                     let hit = self.spec.rules.call.get(&full).or_else(|| if p.path.segments.len() > 1 || true { self.spec.rules.call.get(&last) } else { None });
                     if let Some(arg) = hit {
                         let (_, pe) = self.src.range(c.paren_token.span.close());
@@ -507,6 +513,14 @@ impl<'a, 'ast> Visit<'ast> for Rewriter<'a> {
                         self.spec.func
                     )),
                 }
+            }
+            Expr::Await(a) => {
+                // R10: `e.await` -> `await_shim(e)`
+                let (bs, _) = self.src.range(a.base.span());
+                let (_, be) = self.src.range(a.base.span());
+                let (_, ae) = self.src.range(a.span());
+                self.edit(bs, bs, "await_shim(".to_string(), -1);
+                self.edit(be, ae, ")".to_string(), 0);
             }
             Expr::Unsafe(u) if !self.spec.keep_unsafe => {
                 let (us, _) = self.src.range(u.unsafe_token.span());
@@ -714,6 +728,10 @@ fn main() {
             let (k, v) = split_arrow(r);
             unit_rules.panic.push((k.trim_matches('"').to_string(), v));
             ln += 1;
+        } else if let Some(r) = d.strip_prefix("UNIT-PATH ") {
+            let (k, v) = split_arrow(r);
+            unit_rules.path.insert(k, v);
+            ln += 1;
         } else if let Some(r) = d.strip_prefix("UNIT-MACRO ") {
             let (k, v) = split_arrow(r);
             unit_rules.mac1.insert(k, v);
@@ -844,6 +862,9 @@ fn main() {
                     } else if let Some(r) = dd.strip_prefix("CALL ") {
                         let (k, v) = split_arrow(r);
                         if v == "NONE" { spec.rules.call.remove(&k); } else { spec.rules.call.insert(k, v); }
+                    } else if let Some(r) = dd.strip_prefix("PATH ") {
+                        let (k, v) = split_arrow(r);
+                        spec.rules.path.insert(k, v);
                     } else if let Some(r) = dd.strip_prefix("PANIC ") {
                         let (k, v) = split_arrow(r);
                         spec.rules.panic.insert(0, (k.trim_matches('"').to_string(), v));
